@@ -54,7 +54,7 @@ private theorem inverse_rot2 (m : Iso2 K) (v : V2 K) :
     m.inverse.rot v = m.invRot v := by
   apply V2.ext' <;> simp only [Iso2.inverse, Iso2.rot, Iso2.invRot]
 
-private theorem unitC_inverse (m : Iso2 K) (h : UnitC m) : letI := fieldNum K sq; UnitC m.inverse := by
+protected theorem unitC_inverse (m : Iso2 K) (h : UnitC m) : letI := fieldNum K sq; UnitC m.inverse := by
   unfold UnitC at *
   simp only [Iso2.inverse]
   linear_combination h
@@ -242,7 +242,7 @@ theorem faceFace2_spec (pos12 : Iso2 K) (hq : UnitC pos12) (a1 b1 n1 a2 b2 : V2 
 
 /-! ## `contact_manifold_cuboid_cuboid` (2-D) after a failed warm start -/
 
-private theorem fmax_nonneg : letI := fieldNum K sq; (0 : K) ≤ fmax :=
+protected theorem fmax_nonneg : letI := fieldNum K sq; (0 : K) ≤ fmax :=
   Rat.cast_nonneg.mpr (Int.cast_nonneg (Int.natCast_nonneg _))
 
 private theorem flip_dot (m : Iso2 K) (h : UnitC m) (x y n : V2 K) :
@@ -338,13 +338,13 @@ theorem cuboidCuboidFresh2_spec (pos12 : Iso2 K) (hq : UnitC pos12) (he1 he2 : V
     (pred < s1 ∨ pred < s2 → m' = m.clear ∧ ∃ s n, pred < s ∧ SepExact sq pos12 he1 he2 s n) ∧
     (¬(pred < s1 ∨ pred < s2) → CuboidManifoldGood sq pos12 he1 he2 (max s1 s2) m') := by
   intro s1 s2 m'
-  have hq' := unitC_inverse sq pos12 hq
+  have hq' := C14.unitC_inverse sq pos12 hq
   obtain ⟨d1, -⟩ := satOneway2_spec sq pos12 he1 he2 h1x h1y h2x h2y
   obtain ⟨d2, -⟩ := satOneway2_spec sq (@Iso2.inverse K (fieldNum K sq) pos12) he2 he1 h2x h2y h1x h1y
   have E1 := d1.resolve_left (fun d => by rw [d] at hs1; exact lt_irrefl _ hs1)
   have E2 := sepExact_flip sq pos12 hq he1 he2 _ _ (d2.resolve_left (fun d => by rw [d] at hs2; exact lt_irrefl _ hs2))
   have c3 : ¬ pred < -(@fmax K (fieldNum K sq)) := by
-    have := fmax_nonneg sq (K := K)
+    have := C14.fmax_nonneg sq (K := K)
     intro h; linarith
   refine ⟨?_, ?_⟩
   · intro h
@@ -445,7 +445,7 @@ theorem cuboidCuboidFresh2_domain (pos12 : Iso2 K) (hq : UnitC pos12) (he1 he2 :
     (¬(pred < s1 ∨ pred < s2) → CuboidManifoldGood sq pos12 he1 he2 (max s1 s2) m') :=
   cuboidCuboidFresh2_spec sq pos12 hq he1 he2 h1x h1y h2x h2y pred hp m
     (satOneway2_gt sq pos12 hq he1 he2 h1x h1y h2x h2y hsz)
-    (satOneway2_gt sq _ (unitC_inverse sq pos12 hq) he2 he1 h2x h2y h1x h1y (by linarith))
+    (satOneway2_gt sq _ (C14.unitC_inverse sq pos12 hq) he2 he1 h2x h2y h1x h1y (by linarith))
 
 /-! ### non-vacuity, evaluated over `ℚ`
 
@@ -512,7 +512,7 @@ private theorem tri_edge_mem (a b c p : V2 K) :
     exact ⟨0, 1 - t, le_rfl, by linarith, by linarith, by apply V2.ext' <;> simp only [V2.add, V2.sub, V2.smul] <;> ring⟩
 
 /-- the 2-D `Triangle::support_face` is one of the three edges, for every direction -/
-private theorem triSupportFace2_cases (a b c dir : V2 K) :
+protected theorem triSupportFace2_cases (a b c dir : V2 K) :
     letI := fieldNum K sq
     ∃ x y, triSupportFace2 a b c dir = [x, y] ∧ ∀ p, (Segment2.mk x y).Mem p → (Triangle2.mk a b c).Mem p := by
   obtain ⟨e1, e2, e3⟩ : True ∧ True ∧ True := ⟨trivial, trivial, trivial⟩
@@ -535,7 +535,7 @@ theorem cuboidTriangleAssemble2_spec (pos12 : Iso2 K) (hq : UnitC pos12) (he1 a 
     ∀ k ∈ m'.points, ((pos12.act k.p2).sub k.p1).dot ⟨-n1.y, n1.x⟩ = 0 := by
   intro m'
   obtain ⟨a1, b1, e1, ha1, hb1⟩ := cuboidSupportFace2_mem sq he1 n1 h1x h1y
-  obtain ⟨x, y, e2, hxy⟩ := triSupportFace2_cases sq a b c
+  obtain ⟨x, y, e2, hxy⟩ := C14.triSupportFace2_cases sq a b c
     (@Iso2.rot K (fieldNum K sq) (@Iso2.inverse K (fieldNum K sq) pos12) (@V2.neg K (fieldNum K sq) n1))
   have em : m' = ⟨@faceFace2 K (fieldNum K sq) pos12 a1 b1 n1 x y false, n1,
       @Iso2.rot K (fieldNum K sq) (@Iso2.inverse K (fieldNum K sq) pos12) (@V2.neg K (fieldNum K sq) n1)⟩ := by
@@ -584,12 +584,12 @@ private theorem sep_support (pos12 : Iso2 K) (S1 S2 : V2 K → Prop) (supp1 supp
     linarith
   · exact ⟨supp1 n, _, (h1 n).1, (h2 _).1, rfl⟩
 
-private theorem cuboid_isSupport (he : V2 K) (hx : 0 ≤ he.x) (hy : 0 ≤ he.y) :
+protected theorem cuboid_isSupport (he : V2 K) (hx : 0 ≤ he.x) (hy : 0 ≤ he.y) :
     letI := fieldCopysign K
     IsSupport sq (@Cuboid2.Mem K (fieldNum K sq) (Cuboid2.mk he)) (cuboidSupportPoint2 he) :=
   fun dir => cuboidSupportPoint2_spec sq he dir hx hy
 
-private theorem tri_isSupport (a b c : V2 K) :
+protected theorem tri_isSupport (a b c : V2 K) :
     IsSupport sq (@Triangle2.Mem K (fieldNum K sq) (Triangle2.mk a b c)) (@triSupportPoint2 K (fieldNum K sq) a b c) := by
   intro dir
   obtain ⟨hv, hmax⟩ := triSupportPoint2_spec sq a b c dir
@@ -619,7 +619,7 @@ private theorem satSmStep2_inv (pos12 : Iso2 K) (he1 : V2 K) (h1x : 0 ≤ he1.x)
     have hu : (@V2.set K (@V2.zero K (fieldNum K sq)) i sign).x * (@V2.set K (@V2.zero K (fieldNum K sq)) i sign).x +
         (@V2.set K (@V2.zero K (fieldNum K sq)) i sign).y * (@V2.set K (@V2.zero K (fieldNum K sq)) i sign).y = 1 := by
       by_cases hi : i = 0 <;> simp [V2.set, V2.zero, hi, hss]
-    have key := sep_support sq pos12 _ S2 _ supp2 (cuboid_isSupport sq he1 h1x h1y) h2
+    have key := sep_support sq pos12 _ S2 _ supp2 (C14.cuboid_isSupport sq he1 h1x h1y) h2
       (@V2.set K (@V2.zero K (fieldNum K sq)) i sign) hu
     have e : (@V2.get K (@supportToward2 K (fieldNum K sq) supp2 pos12 (@V2.neg K (fieldNum K sq)
         (@V2.set K (@V2.zero K (fieldNum K sq)) i sign))) i) * sign - he1.get i =
@@ -681,7 +681,7 @@ private theorem triEdgeStep2_inv (hs : LawfulSqrt sq) (pos12 : Iso2 K) (a b c : 
     simp only []
     have hu := tryNew2_unit sq hs _ n _ hN
     split_ifs with hlt
-    · exact ⟨Or.inr (sep_support sq pos12 _ S2 _ supp2 (tri_isSupport sq a b c) h2 n hu), le_trans hb.2 (le_of_lt hlt)⟩
+    · exact ⟨Or.inr (sep_support sq pos12 _ S2 _ supp2 (C14.tri_isSupport sq a b c) h2 n hu), le_trans hb.2 (le_of_lt hlt)⟩
     · exact hb
 
 /-- **`triangle_support_map_find_local_separating_normal_oneway`** (2-D; `triangle_cuboid_…` is this function): the result is the
@@ -696,7 +696,7 @@ theorem triangleSupportMapOneway2_spec (hs : LawfulSqrt sq) (pos12 : Iso2 K) (a 
   exact triEdgeStep2_inv sq hs pos12 a b c S2 supp2 h2 c a _
     (triEdgeStep2_inv sq hs pos12 a b c S2 supp2 h2 b c _ (triEdgeStep2_inv sq hs pos12 a b c S2 supp2 h2 a b _ h0))
 
-private theorem sepExactS_flip (pos12 : Iso2 K) (hq : UnitC pos12) (S1 S2 : V2 K → Prop) (s : K) (n : V2 K)
+protected theorem sepExactS_flip (pos12 : Iso2 K) (hq : UnitC pos12) (S1 S2 : V2 K → Prop) (s : K) (n : V2 K)
     (h : letI := fieldNum K sq; SepExactS sq pos12.inverse S2 S1 s n) :
     letI := fieldNum K sq
     SepExactS sq pos12 S1 S2 s (pos12.rot n.neg) := by
@@ -735,14 +735,14 @@ theorem cuboidTriangleFresh2_spec (hs : LawfulSqrt sq) (pos12 : Iso2 K) (hq : Un
       SepExactS sq pos12 (Cuboid2.mk he1).Mem (Triangle2.mk a b c).Mem (max s1 s2) m'.n1 ∧
       ∀ k ∈ m'.points, max s1 s2 ≤ k.dist) := by
   intro s1 s2 m'
-  have hq' := unitC_inverse sq pos12 hq
-  obtain ⟨d1, -⟩ := cuboidSupportMapOneway2_spec sq pos12 he1 h1x h1y _ _ (tri_isSupport sq a b c)
+  have hq' := C14.unitC_inverse sq pos12 hq
+  obtain ⟨d1, -⟩ := cuboidSupportMapOneway2_spec sq pos12 he1 h1x h1y _ _ (C14.tri_isSupport sq a b c)
   obtain ⟨d2, -⟩ := triangleSupportMapOneway2_spec sq hs (@Iso2.inverse K (fieldNum K sq) pos12) a b c _ _
-    (cuboid_isSupport sq he1 h1x h1y)
+    (C14.cuboid_isSupport sq he1 h1x h1y)
   have E1 := d1.resolve_left (fun d => by rw [d] at hs1; exact lt_irrefl _ hs1)
-  have E2 := sepExactS_flip sq pos12 hq _ _ _ _ (d2.resolve_left (fun d => by rw [d] at hs2; exact lt_irrefl _ hs2))
+  have E2 := C14.sepExactS_flip sq pos12 hq _ _ _ _ (d2.resolve_left (fun d => by rw [d] at hs2; exact lt_irrefl _ hs2))
   have c3 : ¬ pred < -(@fmax K (fieldNum K sq)) := by
-    have := fmax_nonneg sq (K := K)
+    have := C14.fmax_nonneg sq (K := K)
     intro h; linarith
   -- what the assembly gives for a reference normal with exact separation `s`
   have fin : ∀ (s : K) (n : V2 K), SepExactS sq pos12 (@Cuboid2.Mem K (fieldNum K sq) (Cuboid2.mk he1))
@@ -756,7 +756,7 @@ theorem cuboidTriangleFresh2_spec (hs : LawfulSqrt sq) (pos12 : Iso2 K) (hq : Un
     obtain ⟨g, hl, -⟩ := cuboidTriangleAssemble2_spec sq pos12 hq he1 a b c n h1x h1y hE.1 m
     have hn1 : r.n1 = n := by
       obtain ⟨a1, b1, e1, -, -⟩ := cuboidSupportFace2_mem sq he1 n h1x h1y
-      obtain ⟨x, y, e2, -⟩ := triSupportFace2_cases sq a b c
+      obtain ⟨x, y, e2, -⟩ := C14.triSupportFace2_cases sq a b c
         (@Iso2.rot K (fieldNum K sq) (@Iso2.inverse K (fieldNum K sq) pos12) (@V2.neg K (fieldNum K sq) n))
       simp only [r, cuboidTriangleAssemble2]
       rw [e1, e2]
